@@ -101,7 +101,10 @@ static void runHistory(Dec d /* by value: both cache configurations replay the s
             KSI_LIST(KSI_HashChainLink) *ll = nullptr; KSI_HashChainLinkList_new(&ll); KSI_HashChainLink *lk = nullptr; KSI_HashChainLink_new(ctx, &lk); KSI_HashChainLink_setIsLeft(lk, 1); Bytes sib(33, 0x42); sib[0] = 1; KSI_DataHash *sh = nullptr; KSI_DataHash_fromImprint(ctx, sib.data(), sib.size(), &sh); KSI_HashChainLink_setImprint(lk, sh); KSI_HashChainLinkList_append(ll, lk); KSI_AggregationHashChain_setChain(lc, ll);
             KSI_SignatureBuilder *b = nullptr; KSI_Signature *out = nullptr; int res = KSI_SignatureBuilder_openFromSignature(pool[i].sig, &b); if (res == KSI_OK) res = KSI_SignatureBuilder_createSignatureWithAggregationChain(b, lc, &out); what = "prepend-chain " + num((long long)i) + "=" + num(res); trace += what + " "; derives++; if (res == KSI_OK) c.cls("derive:prepended");
             KSI_Signature_free(out); KSI_SignatureBuilder_free(b); KSI_AggregationHashChain_free(lc); break; }
-        default: { unsigned m = d.pick(3); if (m == 0) { KSI_CTX_setLogLevel(ctx, d.flag() ? KSI_LOG_DEBUG : KSI_LOG_NONE); KSI_CTX_setLoggerCallback(ctx, [](void *, int, const char *) { return (int)KSI_OK; }, nullptr); what = "log-level"; }
+        default: { unsigned m = d.pick(3); if (m == 0) { // the logger may also fail (always, or once its budget of lines is used up): the callback contract allows any status, and a verdict must not depend on it
+                static struct LogState { int mode; long left; } ls; ls.mode = (int)d.pick(3); ls.left = 1 + d.pick(40); int lvl = d.flag() ? KSI_LOG_DEBUG : (d.flag() ? KSI_LOG_NONE : (int)(KSI_LOG_ERROR + d.pick(4)));
+                KSI_CTX_setLogLevel(ctx, lvl); KSI_CTX_setLoggerCallback(ctx, [](void *u, int, const char *) { LogState *s = (LogState *)u; if (s->mode == 1) return (int)KSI_IO_ERROR; if (s->mode == 2 && s->left-- <= 0) return (int)KSI_BUFFER_OVERFLOW; return (int)KSI_OK; }, &ls);
+                what = std::string("log-level") + num(lvl) + (ls.mode == 0 ? "" : ls.mode == 1 ? "(failing-logger)" : "(logger-failing-later)"); if (ls.mode && lvl == KSI_LOG_DEBUG) c.cls("log:debug-with-failing-logger"); c.cls("log:level-changed"); }
             else if (m == 1 && cacheSize >= 0) { what = "cache-size"; KSI_CTX_setOption(ctx, KSI_OPT_DATAHASH_CACHE_SIZE, (void *)(size_t)(cacheSize ? d.pick(8) : 0)); } else if (pool.size() > 1) { KSI_Signature_free(pool[i].sig); pool.erase(pool.begin() + (long)i); what = "free " + num((long long)i); } trace += what + " "; break; }
         }
         if (!c.fail) allIntact(what.empty() ? "step" : what);
